@@ -101,6 +101,18 @@ std::unique_ptr<Oomd::Engine::DetectorGroup> compileDetectorGroup(
       group.name, std::move(detectors));
 }
 
+// std::stoi throws on non-numeric or out-of-range input; compile() reports
+// invalid configs by returning nullptr
+bool parseDelay(const std::string& str, int& out) {
+  try {
+    size_t pos = 0;
+    out = std::stoi(str, &pos);
+    return pos == str.size();
+  } catch (const std::exception&) {
+    return false;
+  }
+}
+
 std::unique_ptr<Oomd::Engine::Ruleset> compileRuleset(
     const Oomd::Config2::IR::Ruleset& ruleset,
     bool dropin,
@@ -144,7 +156,10 @@ std::unique_ptr<Oomd::Engine::Ruleset> compileRuleset(
 
   // post_action_delay field is optional
   if (ruleset.post_action_delay.size()) {
-    post_action_delay = std::stoi(ruleset.post_action_delay);
+    if (!parseDelay(ruleset.post_action_delay, post_action_delay)) {
+      OLOG << "Ruleset post_action_delay must be an integer";
+      return nullptr;
+    }
     if (post_action_delay < 0) {
       OLOG << "Ruleset post_action_delay must be non-negative";
       return nullptr;
@@ -153,7 +168,10 @@ std::unique_ptr<Oomd::Engine::Ruleset> compileRuleset(
 
   // prekill_hook_timeout field is optional
   if (ruleset.prekill_hook_timeout.size()) {
-    prekill_hook_timeout = std::stoi(ruleset.prekill_hook_timeout);
+    if (!parseDelay(ruleset.prekill_hook_timeout, prekill_hook_timeout)) {
+      OLOG << "Ruleset prekill_hook_timeout must be an integer";
+      return nullptr;
+    }
     if (prekill_hook_timeout < 0) {
       OLOG << "Ruleset prekill_hook_timeout must be non-negative";
       return nullptr;
